@@ -16,5 +16,7 @@ Methods9 == {"GET", "POST", "PUT", "PATCH", "DELETE", "HEAD", "OPTIONS", "CONNEC
 Kinds == {"root", "create", "item", "edit", "createedit", "deep", "other"}
 Emit == PrintT(ToJson([impl |-> impl, base |-> base,
                        table |-> { [action |-> r.action, methods |-> r.methods, path |-> r.path] : r \in DocTable(DocBase, impl) },
+                       \* on a StrictLastSlash router the trailing slashes of the relative paths stay (RegPath with strict = TRUE)
+                       stricttable |-> { [action |-> a, methods |-> DocMethods(a), path |-> RegPath(TRUE, <<GroupPrefix>>, RelPath(a))] : a \in impl },
                        probes |-> { <<m, k, ServesQ(impl, m, k)>> : m \in Methods9, k \in Kinds }]))
 =============================================================================
